@@ -117,6 +117,7 @@ def judge(case, rec):
     resp = zz9enc.encode(sv, q)
     pop = case["population"]
     part = lib.cube(resp, case["transforms"], population=pop).partitions[0]
+    lib.warm(part, case.get("warmup"))
     dims = apparent_dims(sv, q)
     orc = Oracle(sv, q)
     rec.event("shape=" + "x".join(case["shape"]))
